@@ -83,7 +83,8 @@ type pgen struct {
 
 func pick[T any](r *rand.Rand, xs []T) T { return xs[r.Intn(len(xs))] }
 
-var genTexts = []string{"a", "b ", " c", "\n", "x y", "-", "", "  ", "é", "<p>", "q\n"}
+// (also control characters that are no white space - ESC, NUL, BEL - next to blanks)
+var genTexts = []string{"a", "b ", " c", "\n", "x y", "-", "", "  ", "é", "<p>", "q\n", " \x1b[1m\n ", "\x00 ", " \x07"}
 
 func (g *pgen) scalar() J {
 	switch g.r.Intn(10) {
